@@ -152,6 +152,8 @@ func cmdCallable(args map[string]string) {
 		maxArgs = 3
 	}
 	n := 0
+	// signatures an argument option is applied to before its real use (see below)
+	warmups := [][]string{{"int"}, {"string", "any"}, {"pint"}, {"any", "any"}, {}, {"sint"}, {"err", "int"}}
 	// universe A: arguments
 	for _, params := range seqs(ptypes, 2) {
 		for _, variadic := range []bool{false, true} {
@@ -164,8 +166,14 @@ func cmdCallable(args map[string]string) {
 				if !thorough && len(av) == 2 && len(params) == 2 && (n+int(seed))%3 != 0 {
 					continue
 				}
-				evs = append(evs, caseArgs(params, variadic, av))
+				evs = append(evs, caseArgs(params, variadic, av, nil))
 				st.Executions++
+				// the same option VALUE applied to a callable of another signature first (options are values: re-using
+				// one must give what a fresh one gives)
+				if len(av) <= 2 && (n+int(seed))%2 == 0 {
+					evs = append(evs, caseArgs(params, variadic, av, warmups[n%len(warmups)]))
+					st.Executions++
+				}
 				if len(evs) >= 2000 {
 					flush()
 				}
@@ -259,15 +267,20 @@ func outcome(err error, p string) string {
 	return "ok"
 }
 
-func caseArgs(params []string, variadic bool, av []string) rec.Ev {
+func caseArgs(params []string, variadic bool, av []string, warm []string) rec.Ev {
 	invoked, got := 0, []string{}
 	fn := recorder(params, variadic, nil, false, &invoked, &got)
 	vals := make([]interface{}, len(av))
 	for i, k := range av {
 		vals[i] = argValue(k)
 	}
+	opt := bigbuff.CallArgs(vals...)
+	if warm != nil {
+		wi, wg := 0, []string{}
+		safeCall(func() { _ = bigbuff.Call(bigbuff.NewCallable(recorder(warm, false, nil, false, &wi, &wg)), opt) })
+	}
 	var err error
-	p := safeCall(func() { err = bigbuff.Call(bigbuff.NewCallable(fn), bigbuff.CallArgs(vals...)) })
+	p := safeCall(func() { err = bigbuff.Call(bigbuff.NewCallable(fn), opt) })
 	return rec.Ev{"ev": "case", "u": "A", "params": params, "variadic": variadic, "args": av, "out": outcome(err, p), "invoked": invoked, "got": got, "msg": msg(err, p)}
 }
 
